@@ -11,8 +11,11 @@ package operationapplier
 //@ spec func effUntil(from int64, until int64, delta uint64) int64 = ite(from != 0 && until == 0, from + int64(delta), until)
 //@ spec func inWindow(from int64, until int64, t uint64, delta uint64) bool =
 //@     (from == 0 && until == 0) || (from <= int64(t) && int64(t) <= effUntil(from, until, delta))
-//@ spec func noAddOverflow(a int64, b int64) bool = (b >= 0 && a + b >= a) || (b < 0 && a + b < a)
 //
+// inWindow is stated over 64-bit machine integers exactly as Go evaluates it. On the domain
+// t <= 2^63-1, delta <= 2^63-1, from+delta without int64 overflow it is the mathematical
+// predicate  from <= t <= until'  of the property statement; outside that domain the code
+// (and this predicate) wrap around, which the property does not speak about.
 //@ func (s *Applier) getAnchorUntil(from, until) (r)
 //@   pure
 //@   requires s != nil
@@ -21,6 +24,178 @@ package operationapplier
 //@ func (s *Applier) verifyAnchoringTimeRange(from, until, anchor) (err)
 //@   pure
 //@   requires s != nil
-//@   requires anchor <= 9223372036854775807 && s.MaxOperationTimeDelta <= 9223372036854775807
-//@   requires from != 0 && until == 0 ==> noAddOverflow(from, int64(s.MaxOperationTimeDelta))
 //@   ensures [window] (err == nil) == inWindow(from, until, anchor, s.MaxOperationTimeDelta)
+
+// ---------------------------------------------------------------------------
+// Interface contracts the applier relies on. Every clause is re-stated and
+// proved on the concrete *operationparser.Parser / *doccomposer.DocumentComposer
+// (packages operationparser, doccomposer). `pure` on an interface method says:
+// the result is a deterministic function of the arguments and the heap.
+//
+//@ func (p OperationParser) ParseCreateOperation(request, anchor) (op, err)
+//@   pure
+//@   ensures [nonnil] err == nil ==> op != nil && op.SuffixData != nil
+//
+//@ func (p OperationParser) ParseUpdateOperation(request, anchor) (op, err)
+//@   pure
+//@   ensures [nonnil] err == nil ==> op != nil
+//
+//@ func (p OperationParser) ParseRecoverOperation(request, anchor) (op, err)
+//@   pure
+//@   ensures [nonnil] err == nil ==> op != nil
+//
+//@ func (p OperationParser) ParseDeactivateOperation(request, anchor) (op, err)
+//@   pure
+//@   ensures [nonnil] err == nil ==> op != nil
+//
+//@ func (p OperationParser) ParseSignedDataForUpdate(compactJWS) (sd, err)
+//@   pure
+//@   ensures [nonnil] err == nil ==> sd != nil
+//
+//@ func (p OperationParser) ParseSignedDataForRecover(compactJWS) (sd, err)
+//@   pure
+//@   ensures [nonnil] err == nil ==> sd != nil
+//
+//@ func (p OperationParser) ParseSignedDataForDeactivate(compactJWS) (sd, err)
+//@   pure
+//@   ensures [nonnil] err == nil ==> sd != nil
+//
+//@ func (p OperationParser) ValidateDelta(delta) (err)
+//@   pure
+//@   ensures [nonnil] err == nil ==> delta != nil
+//
+//@ func (p OperationParser) ValidateSuffixData(suffixData) (err)
+//@   pure
+//@   ensures [nonnil] err == nil ==> suffixData != nil
+
+// ---------------------------------------------------------------------------
+// C01 / C02 / C09 / C12: the step relation of the state machine, one function
+// per operation type. `let` names the application of a pure callee: the same
+// term the call in the body denotes.
+
+//@ func (s *Applier) Apply(op, rm) (ret, err)
+//@   requires s != nil && op != nil && rm != nil
+//@   modifies nothing
+//@   let c := s.applyCreateOperation(op, rm)
+//@   let u := s.applyUpdateOperation(op, rm)
+//@   let r := s.applyRecoverOperation(op, rm)
+//@   let d := s.applyDeactivateOperation(op, rm)
+//@   ensures [dispatch.create] op.Type == operation.TypeCreate ==> ret == c.ret && err == c.err
+//@   ensures [dispatch.update] op.Type == operation.TypeUpdate ==> ret == u.ret && err == u.err
+//@   ensures [dispatch.recover] op.Type == operation.TypeRecover ==> ret == r.ret && err == r.err
+//@   ensures [dispatch.deactivate] op.Type == operation.TypeDeactivate ==> ret == d.ret && err == d.err
+//@   ensures [dispatch.other] op.Type != operation.TypeCreate && op.Type != operation.TypeUpdate && op.Type != operation.TypeRecover && op.Type != operation.TypeDeactivate ==> ret == nil && err != nil
+//@   ensures [atomic] (err != nil ==> ret == nil) && (err == nil ==> ret != nil)
+
+//@ func (s *Applier) applyCreateOperation(anchoredOp, rm) (ret, err)
+//@   pure
+//@   requires s != nil && anchoredOp != nil && rm != nil
+//@   modifies nothing
+//@   let op, perr := s.OperationParser.ParseCreateOperation(anchoredOp.OperationRequest, true)
+//@   let accepted := rm.Doc == nil && perr == nil
+//@   let hashOK := hashing.IsValidModelMultihash(op.Delta, op.SuffixData.DeltaHash) == nil
+//@   let deltaOK := s.OperationParser.ValidateDelta(op.Delta) == nil
+//@   ensures [refuse] !accepted ==> ret == nil && err != nil
+//@   ensures [accept] accepted ==> err == nil && ret != nil
+//@   ensures [first-op] rm.Doc != nil ==> ret == nil && err != nil
+//@   ensures [recoveryCommitment] accepted ==> ret.RecoveryCommitment == op.SuffixData.RecoveryCommitment
+//@   ensures [anchorOrigin] accepted ==> ret.AnchorOrigin == op.SuffixData.AnchorOrigin
+//@   ensures [updateCommitment.staged] accepted ==> ret.UpdateCommitment == ite(hashOK && deltaOK, op.Delta.UpdateCommitment, "")
+//@   ensures [doc.staged] accepted && hashOK && deltaOK ==>
+//@        (exists d0 document.Document :: emptymap(d0) && fresh(d0) &&
+//@           ((s.DocumentComposer.ApplyPatches(d0, op.Delta.Patches).err == nil && ret.Doc == s.DocumentComposer.ApplyPatches(d0, op.Delta.Patches).ret) ||
+//@            (s.DocumentComposer.ApplyPatches(d0, op.Delta.Patches).err != nil && emptymap(ret.Doc))))
+//@   ensures [doc.empty] accepted && !(hashOK && deltaOK) ==> emptymap(ret.Doc)
+//@   ensures [doc.nonnil] accepted ==> ret.Doc != nil
+//@   ensures [createdTime] accepted ==> ret.CreatedTime == anchoredOp.TransactionTime && ret.UpdatedTime == 0
+//@   ensures [lastOperation] accepted ==> ret.LastOperationTransactionTime == anchoredOp.TransactionTime &&
+//@        ret.LastOperationTransactionNumber == anchoredOp.TransactionNumber && ret.LastOperationProtocolVersion == anchoredOp.ProtocolVersion
+//@   ensures [references] accepted ==> ret.VersionID == anchoredOp.CanonicalReference && ret.CanonicalReference == anchoredOp.CanonicalReference &&
+//@        ret.EquivalentReferences == anchoredOp.EquivalentReferences
+//@   ensures [operations] accepted ==> ret.PublishedOperations == rm.PublishedOperations && ret.UnpublishedOperations == rm.UnpublishedOperations
+//@   ensures [deactivated] accepted ==> !ret.Deactivated
+
+//@ func (s *Applier) applyUpdateOperation(anchoredOp, rm) (ret, err)
+//@   pure
+//@   requires s != nil && anchoredOp != nil && rm != nil
+//@   modifies nothing
+//@   let op, perr := s.OperationParser.ParseUpdateOperation(anchoredOp.OperationRequest, true)
+//@   let sd, sderr := s.OperationParser.ParseSignedDataForUpdate(op.SignedData)
+//@   let hashOK := hashing.IsValidModelMultihash(op.Delta, sd.DeltaHash) == nil
+//@   let sigOK := jwsutil.VerifyJWS(op.SignedData, sd.UpdateKey).err == nil
+//@   let deltaOK := s.OperationParser.ValidateDelta(op.Delta) == nil
+//@   let accepted := rm.Doc != nil && perr == nil && sderr == nil && hashOK && sigOK && deltaOK
+//@   let inWin := inWindow(sd.AnchorFrom, sd.AnchorUntil, anchoredOp.TransactionTime, s.MaxOperationTimeDelta)
+//@   let doc2, aerr := s.DocumentComposer.ApplyPatches(rm.Doc, op.Delta.Patches)
+//@   ensures [refuse] !accepted ==> ret == nil && err != nil
+//@   ensures [accept] accepted ==> err == nil && ret != nil
+//@   ensures [first-op] rm.Doc == nil ==> ret == nil && err != nil
+//@   ensures [sig] !(perr == nil && sderr == nil && sigOK) ==> ret == nil && err != nil
+//@   ensures [hash] !(perr == nil && sderr == nil && hashOK) ==> ret == nil && err != nil
+//@   ensures [updateCommitment] accepted ==> ret.UpdateCommitment == op.Delta.UpdateCommitment
+//@   ensures [recoveryCommitment] accepted ==> ret.RecoveryCommitment == rm.RecoveryCommitment
+//@   ensures [anchorOrigin] accepted ==> ret.AnchorOrigin == rm.AnchorOrigin
+//@   ensures [doc.applied] accepted && inWin && aerr == nil ==> ret.Doc == doc2
+//@   ensures [doc.degrade] accepted && !(inWin && aerr == nil) ==> ret.Doc == rm.Doc
+//@   ensures [createdTime] accepted ==> ret.CreatedTime == rm.CreatedTime && ret.UpdatedTime == anchoredOp.TransactionTime
+//@   ensures [lastOperation] accepted ==> ret.LastOperationTransactionTime == anchoredOp.TransactionTime &&
+//@        ret.LastOperationTransactionNumber == anchoredOp.TransactionNumber && ret.LastOperationProtocolVersion == anchoredOp.ProtocolVersion
+//@   ensures [references] accepted ==> ret.VersionID == anchoredOp.CanonicalReference && ret.CanonicalReference == rm.CanonicalReference &&
+//@        ret.EquivalentReferences == rm.EquivalentReferences
+//@   ensures [operations] accepted ==> ret.PublishedOperations == rm.PublishedOperations && ret.UnpublishedOperations == rm.UnpublishedOperations
+//@   ensures [deactivated] accepted ==> !ret.Deactivated
+
+//@ func (s *Applier) applyRecoverOperation(anchoredOp, rm) (ret, err)
+//@   pure
+//@   requires s != nil && anchoredOp != nil && rm != nil
+//@   modifies nothing
+//@   let op, perr := s.OperationParser.ParseRecoverOperation(anchoredOp.OperationRequest, true)
+//@   let sd, sderr := s.OperationParser.ParseSignedDataForRecover(op.SignedData)
+//@   let sigOK := jwsutil.VerifyJWS(op.SignedData, sd.RecoveryKey).err == nil
+//@   let accepted := rm.Doc != nil && perr == nil && sderr == nil && sigOK
+//@   let hashOK := hashing.IsValidModelMultihash(op.Delta, sd.DeltaHash) == nil
+//@   let deltaOK := s.OperationParser.ValidateDelta(op.Delta) == nil
+//@   let inWin := inWindow(sd.AnchorFrom, sd.AnchorUntil, anchoredOp.TransactionTime, s.MaxOperationTimeDelta)
+//@   ensures [refuse] !accepted ==> ret == nil && err != nil
+//@   ensures [accept] accepted ==> err == nil && ret != nil
+//@   ensures [first-op] rm.Doc == nil ==> ret == nil && err != nil
+//@   ensures [sig] !(perr == nil && sderr == nil && sigOK) ==> ret == nil && err != nil
+//@   ensures [recoveryCommitment] accepted ==> ret.RecoveryCommitment == sd.RecoveryCommitment
+//@   ensures [anchorOrigin] accepted ==> ret.AnchorOrigin == sd.AnchorOrigin
+//@   ensures [updateCommitment.staged] accepted ==> ret.UpdateCommitment == ite(hashOK && deltaOK, op.Delta.UpdateCommitment, "")
+//@   ensures [doc.staged] accepted && hashOK && deltaOK && inWin ==>
+//@        (exists d0 document.Document :: emptymap(d0) && fresh(d0) &&
+//@           ((s.DocumentComposer.ApplyPatches(d0, op.Delta.Patches).err == nil && ret.Doc == s.DocumentComposer.ApplyPatches(d0, op.Delta.Patches).ret) ||
+//@            (s.DocumentComposer.ApplyPatches(d0, op.Delta.Patches).err != nil && emptymap(ret.Doc))))
+//@   ensures [doc.empty] accepted && !(hashOK && deltaOK && inWin) ==> emptymap(ret.Doc)
+//@   ensures [doc.nonnil] accepted ==> ret.Doc != nil
+//@   ensures [createdTime] accepted ==> ret.CreatedTime == rm.CreatedTime && ret.UpdatedTime == anchoredOp.TransactionTime
+//@   ensures [lastOperation] accepted ==> ret.LastOperationTransactionTime == anchoredOp.TransactionTime &&
+//@        ret.LastOperationTransactionNumber == anchoredOp.TransactionNumber && ret.LastOperationProtocolVersion == anchoredOp.ProtocolVersion
+//@   ensures [references] accepted ==> ret.VersionID == anchoredOp.CanonicalReference && ret.CanonicalReference == anchoredOp.CanonicalReference &&
+//@        ret.EquivalentReferences == anchoredOp.EquivalentReferences
+//@   ensures [operations] accepted ==> ret.PublishedOperations == rm.PublishedOperations && ret.UnpublishedOperations == rm.UnpublishedOperations
+//@   ensures [deactivated] accepted ==> !ret.Deactivated
+
+//@ func (s *Applier) applyDeactivateOperation(anchoredOp, rm) (ret, err)
+//@   pure
+//@   requires s != nil && anchoredOp != nil && rm != nil
+//@   modifies nothing
+//@   let op, perr := s.OperationParser.ParseDeactivateOperation(anchoredOp.OperationRequest, true)
+//@   let sd, sderr := s.OperationParser.ParseSignedDataForDeactivate(op.SignedData)
+//@   let sigOK := jwsutil.VerifyJWS(op.SignedData, sd.RecoveryKey).err == nil
+//@   let inWin := inWindow(sd.AnchorFrom, sd.AnchorUntil, anchoredOp.TransactionTime, s.MaxOperationTimeDelta)
+//@   let accepted := rm.Doc != nil && perr == nil && sderr == nil && op.UniqueSuffix == sd.DidSuffix && sigOK && inWin
+//@   ensures [refuse] !accepted ==> ret == nil && err != nil
+//@   ensures [accept] accepted ==> err == nil && ret != nil
+//@   ensures [first-op] rm.Doc == nil ==> ret == nil && err != nil
+//@   ensures [sig] !(perr == nil && sderr == nil && sigOK) ==> ret == nil && err != nil
+//@   ensures [window] !(perr == nil && sderr == nil && inWin) ==> ret == nil && err != nil
+//@   ensures [cleared] accepted ==> ret.UpdateCommitment == "" && ret.RecoveryCommitment == "" && ret.Deactivated && emptymap(ret.Doc)
+//@   ensures [anchorOrigin] accepted ==> ret.AnchorOrigin == rm.AnchorOrigin
+//@   ensures [createdTime] accepted ==> ret.CreatedTime == rm.CreatedTime && ret.UpdatedTime == anchoredOp.TransactionTime
+//@   ensures [lastOperation] accepted ==> ret.LastOperationTransactionTime == anchoredOp.TransactionTime &&
+//@        ret.LastOperationTransactionNumber == anchoredOp.TransactionNumber && ret.LastOperationProtocolVersion == anchoredOp.ProtocolVersion
+//@   ensures [references] accepted ==> ret.VersionID == anchoredOp.CanonicalReference && ret.CanonicalReference == rm.CanonicalReference &&
+//@        ret.EquivalentReferences == rm.EquivalentReferences
+//@   ensures [operations] accepted ==> ret.PublishedOperations == rm.PublishedOperations && ret.UnpublishedOperations == rm.UnpublishedOperations
